@@ -1834,8 +1834,9 @@ func (w *transformingWriter) Close() error {
 		if err := w.flushMessage(); err != nil {
 			w.rw.reportError(err)
 		}
-	} else if w.buffer != nil && w.buffer.Len() > 0 {
-		// Unfinished body!
+	} else if w.buffer != nil && (w.buffer.Len() > 0 || (!w.writingEnvelope && w.expectingBytes > 0)) {
+		// Unfinished body! (That includes an envelope that announced a message of which
+		// not a single byte followed.)
 		if w.writingEnvelope {
 			w.rw.reportError(fmt.Errorf("handler only wrote %d out of %d bytes of message envelope", w.buffer.Len(), envelopeLen))
 		} else {
